@@ -53,6 +53,11 @@ fn table_json(t: &[Vec<i32>]) -> Value {
 
 /// ops: ("global", q) | ("banded", q, bw) | ("add") | ("consensus")
 enum Op {
+    /// another mode (0 semiglobal, 1 local, 2 custom) with the query, result not judged: the following
+    /// `global` must not be influenced by it
+    OtherMode(usize, Vec<u8>),
+    /// go on with a copy of the aligner (0 clone, 1 clone_from into an aligner with another scoring)
+    Copy(usize),
     Global(Vec<u8>),
     Banded(Vec<u8>, usize),
     Add,
@@ -69,13 +74,7 @@ fn run(log: &mut Log, tag: &str, alpha: &[u8], reference: &[u8], sc: &Sc, ops: &
     if !log.begin(tag, cfg) {
         return;
     }
-    let al: Vec<u8> = alpha.to_vec();
-    let tab = sc.table.clone();
-    let f = move |a: u8, b: u8| -> i32 {
-        let i = al.iter().position(|&x| x == a).unwrap();
-        let j = al.iter().position(|&x| x == b).unwrap();
-        tab[i][j]
-    };
+    let f = bio_verif_harness::aln::TabFn { al: alpha.to_vec(), tab: sc.table.clone() };
     let mut scoring = Scoring::new(sc.gap, sc.gap_extend, f);
     if let Some(c) = sc.clips {
         scoring.xclip_prefix = c[0];
@@ -96,6 +95,29 @@ fn run(log: &mut Log, tag: &str, alpha: &[u8], reference: &[u8], sc: &Sc, ops: &
     let mut aligner = aligner.unwrap();
     for op in ops {
         let r = match op {
+            Op::OtherMode(mode, q) => log.call("other_mode", json!({"mode": mode, "q": syms(alpha, q)}), || {
+                let a = match mode {
+                    0 => aligner.semiglobal(q).alignment(),
+                    1 => aligner.local(q).alignment(),
+                    _ => aligner.custom(q).alignment(),
+                };
+                json!({"score": a.score})
+            }),
+            Op::Copy(how) => log.call("copy", json!({"how": how}), || {
+                if *how == 0 {
+                    let c = aligner.clone();
+                    aligner = c;
+                } else {
+                    // an aligner of the same type with another scoring, another graph and a history
+                    let t2: Vec<Vec<i32>> = sc.table.iter().map(|r| r.iter().map(|v| v * 2 + 1).collect()).collect();
+                    let f2 = bio_verif_harness::aln::TabFn { al: alpha.to_vec(), tab: t2 };
+                    let mut other = Aligner::new(Scoring::new(sc.gap - 2, sc.gap_extend, f2), &alpha[..1]);
+                    other.global(&alpha[..2]).add_to_graph();
+                    other.clone_from(&aligner);
+                    aligner = other;
+                }
+                graph_json(alpha, aligner.graph())
+            }),
             Op::Global(q) => log.call("global", json!({"q": syms(alpha, q)}), || {
                 let a = aligner.global(q).alignment();
                 json!({"score": a.score, "ops": ops_json(a.verif_operations())})
@@ -178,9 +200,23 @@ pub fn drive(log: &mut Log) {
             }
             let sc = Sc { table: mm_table(2, m, mm), gap: g, gap_extend: -7, clips: if (case % 3) == 0 { log.oblige("scoring_with_clip_penalties"); Some([-1, -1, -1, -1]) } else { None } };
             let mut ops = vec![];
-            for q in &strs {
+            for (qi, q) in strs.iter().enumerate() {
+                if case % 2 == 0 {
+                    // the same query in a clipping mode right before the judged global alignment
+                    ops.push(Op::OtherMode((qi + case as usize) % 3, q.clone()));
+                    log.oblige("same_query_in_another_mode_before_global");
+                }
+                if (qi as u64 + case) % 5 == 0 {
+                    ops.push(Op::Copy((qi + case as usize) % 2));
+                    log.oblige("aligner_copied_mid_history");
+                }
                 ops.push(Op::Global(q.clone()));
                 ops.push(Op::Banded(q.clone(), r.len().max(q.len())));
+                if case % 4 == 1 {
+                    // banded with a band that is too narrow, then global of the same query
+                    ops.push(Op::Banded(q.clone(), 1));
+                    ops.push(Op::Global(q.clone()));
+                }
             }
             run(log, "lin", ac, r, &sc, &ops);
         }
@@ -260,7 +296,16 @@ pub fn drive(log: &mut Log) {
                 }
             };
             let q = if q.is_empty() { vec![b'C'] } else { q };
+            if rng.chance(1, 4) {
+                ops.push(Op::OtherMode(rng.below(3) as usize, q.clone()));
+            }
+            if rng.chance(1, 5) {
+                ops.push(Op::Copy(rng.below(2) as usize));
+            }
             ops.push(Op::Global(q));
+            if rng.chance(1, 6) {
+                ops.push(Op::Copy(rng.below(2) as usize));
+            }
             ops.push(Op::Add);
             ops.push(Op::Consensus);
         }
